@@ -154,6 +154,12 @@ func (o *OracleC16) OnOut(n *Node, st *Step, out *Out) {
 				o.viol(n, "view_change_because_idle", "%s broadcast at height %d while the node's pool is empty (during %s): nobody is late, the chain is merely idle", p.T, p.H, st.describe())
 				return
 			}
+			// ... and with transactions in the pool a new-transaction notification has exactly one
+			// legitimate effect, the pending proposal: never a change-view or recovery request
+			if st.Op == OpNewTx {
+				o.viol(n, "notification_caused_view_change", "%s broadcast at height %d during %s: a new-transaction notification must only produce the pending proposal", p.T, p.H, st.describe())
+				return
+			}
 		}
 	}
 }
